@@ -97,6 +97,12 @@ class Unit:
                 raise cut.EncodeError(f"shim {shim}: dependency line not found in {f}")
             open(p, 'w').write(s2)
         edits = list(self.u.get('edits', []))
+        # acmed/build.rs locates Cargo.lock through env!("CARGO_MANIFEST_DIR"), i.e. the path is frozen
+        # into the build-script BINARY; cargo reuses that binary from the dependency cache for later
+        # scratch copies (it does not track CARGO_* variables), so a deleted earlier scratch directory
+        # made the script lose ACMED_HTTP_LIB_*. The scratch copy reads the variable at run time instead.
+        edits.insert(0, {'file': 'acmed/build.rs', 'replace': 'PathBuf::from(env!("CARGO_MANIFEST_DIR"))',
+                         'with': 'PathBuf::from(std::env::var("CARGO_MANIFEST_DIR").unwrap())', 'count': None})
         # the shared harness prelude goes into the crate root
         root = 'acmed/src/main.rs' if self.pkg == 'acmed' else 'acme_common/src/lib.rs'
         prelude = read_aux('harness/_env.rs')
